@@ -16,6 +16,7 @@ pub fn def() -> CheckDef {
             "finite_function::coequalizer_universal",
             "IndexedCoproduct::{tensor,map_values,from_semifinite}",
             "semifinite::compose_semifinite",
+            "lax::category::{Arrow::compose, >>, lax_compose} (lax tier)",
         ],
         bounds_quick: "per operand W<=2 nodes, X<=1 hyperedges, S,T<=2 incidences, interfaces <=2; corner pairs mandatory, the rest of the box seed-sampled under the time budget",
         bounds_thorough: "per operand W<=3, X<=2, S,T<=3, interfaces <=3, total nodes <=6; whole box under the time budget",
@@ -92,6 +93,9 @@ pub fn corner_pairs() -> Vec<(Shape, Shape)> {
 pub fn jobs(tier: Tier, seed: u64) -> Vec<Job> {
     let cfg = base_cfg(tier);
     let mut out = super::c07::conformance_jobs(tier, &[2, 3]);
+    // the lax representation composes by the same gluing (checked `compose`, `>>`, unchecked `lax_compose`):
+    // defined iff the types (resp. arities) match, and the result glues the strict meanings (lax tier)
+    out.extend(super::lax::c10_jobs(tier, seed).into_iter().filter(|j| j.name.starts_with("lax compose")).take(if tier == Tier::Quick { 400 } else { 4000 }));
     let mut seen = std::collections::HashSet::new();
     let per_job = Duration::from_secs(match tier {
         Tier::Quick => 60,
